@@ -85,6 +85,8 @@ type MicroKernel struct {
 	WGSize   int      `json:"wg_size"`
 	NumWG    int      `json:"num_wg"`
 	LDS      int      `json:"lds"`
+	SGPRs    int      `json:"sgprs"` // WFSgprCount of the code object
+	VGPRs    int      `json:"vgprs"` // WIVgprCount
 	Features []string `json:"features"`
 }
 
@@ -499,13 +501,130 @@ func genGeneral(rng *vh.Rng, a *asm, k *MicroKernel) {
 	genOps(rng, a, rng.Intn(4))
 }
 
+// ---- family "uneven": wavefronts of one work-group finish at very different
+// times; the late ones read their dispatch-initialised SGPRs (kernarg pointer,
+// work-group id) only after the early ones have ended.  Uses s0..s9 only, so
+// that any SGPR count from 10 up is legal.
+
+func genUneven(rng *vh.Rng, a *asm, k *MicroKernel) {
+	k.WGSize = []int{128, 192, 256}[rng.Intn(3)]
+	k.NumWG = 2 + rng.Intn(7)
+	k.SGPRs = []int{16, 16, 32, 48, 10, 11, 12, 13, 14, 15}[rng.Intn(10)]
+	k.VGPRs = []int{12, 9, 10, 11, 13, 16}[rng.Intn(6)]
+	spin := 40 + rng.Intn(260)
+	evenEarly := rng.Bool()
+	k.Features = append(k.Features, fmt.Sprintf("sgprs:%d", k.SGPRs))
+	tail := func() {
+		a.smemLoad(1, 4, 0, 16) // s_load_dwordx2 s[4:5], s[0:1], 16  (out pointer, through the kernarg pointer)
+		a.smemLoad(0, 8, 0, 8)  // s_load_dword s8, s[0:1], 8          (low half of the in2 pointer, as data)
+		a.waitcnt(wLGK0)
+		a.sopk(0, 7, k.WGSize)
+		a.sop2(36, 3, sgpr(2), sgpr(7)) // s3 = group id * group size
+		a.vop2(25, 1, sgpr(3), 0)
+		a.vop2(18, 2, konst(2), 1)
+		addr64(a, 6, 4)
+		a.vop1(1, 5, sgpr(0))        // kernarg pointer low
+		a.vop2(25, 5, sgpr(2), 5)    // + group id
+		a.vop2(21, 5, sgpr(8), 5)    // ^ argument word
+		a.vop2(25, 5, vsrc(1), 5)    // + gid
+		a.flat(28, 6, 5, 0)
+		a.sopp(1, 0)
+	}
+	a.vop2(19, 8, konst(64), 0)      // v8 = tid & 64 : 0 for even wavefronts of the group
+	a.vopc(0xCA, konst(0), 8)         // v_cmp_eq_u32 vcc, 0, v8
+	br := len(a.w)
+	if evenEarly {
+		a.sopp(7, 0) // s_cbranch_vccnz EARLY (patched)
+	} else {
+		a.sopp(6, 0) // s_cbranch_vccz EARLY
+	}
+	// late path: spin, then use s0..s2
+	a.sopk(0, 6, spin)
+	top := a.pc()
+	a.sop2(1, 6, sgpr(6), konst(1))
+	a.sopc(7, sgpr(6), konst(0))
+	a.sopp(5, (top-(a.pc()+4))/4)
+	tail()
+	early := a.pc()
+	a.w[br] |= uint32(uint16((early - (4*br + 4)) / 4))
+	tail()
+}
+
+// ---- family "halfreg": 32-bit halves of VCC and EXEC as scalar destinations
+// and sources, then consumers of the full 64-bit pair.
+
+const (
+	srcVCCHI  = 107
+	srcEXECLO = 126
+	srcEXECHI = 127
+)
+
+func genHalfReg(rng *vh.Rng, a *asm, k *MicroKernel) {
+	a.waitcnt(wAll)
+	a.sopk(0, 12, int(int16(rng.U64())))      // s12 = random 16-bit (sign-extended)
+	a.sopk(0, 13, int(int16(rng.U64())))      // s13
+	a.sop2(28, 14, sgpr(13), konst(16))       // s14 = s13 << 16
+	a.sop2(16, 14, sgpr(14), sgpr(12))        // s14 ^= s12
+	for i := 0; i < 2+rng.Intn(4); i++ {
+		switch rng.Intn(5) {
+		case 0, 1: // VCC half written, pair consumed by v_cndmask and a vccz branch around a store
+			a.vopc(0xC9+rng.Intn(6), konst(20+rng.Intn(44)), 0) // v_cmp_*_u32 vcc, k, v0
+			half := []int{srcVCCLO, srcVCCHI}[rng.Intn(2)]
+			switch rng.Intn(3) {
+			case 0:
+				a.sop1(0, half, konst(0)) // s_mov_b32 vcc_half, 0
+			case 1:
+				a.sop2(12, half, half, sgpr(14)) // s_and_b32 vcc_half, vcc_half, s14
+			default:
+				a.sop1(0, half, sgpr(14))
+			}
+			k.Features = append(k.Features, "vcc-half")
+			a.vop2(0, 5, vsrc(5), 8) // v_cndmask_b32 v5, v5, v8, vcc
+			skip := len(a.w)
+			a.sopp(6, 0) // s_cbranch_vccz SKIP
+			a.vop2(25, 9, konst(17), 9)
+			a.w[skip] |= uint32(uint16((a.pc() - (4*skip + 4)) / 4))
+			a.sop2(0, 15, srcVCCLO, srcVCCHI) // s_add_u32 s15, vcc_lo, vcc_hi  (halves as sources)
+			a.vop2(25, 9, sgpr(15), 9)
+		case 2, 3: // EXEC half written, vector work and a store under the resulting mask
+			a.sop1(1, 20, srcEXECLO) // s_mov_b64 s[20:21], exec
+			half := []int{srcEXECLO, srcEXECHI}[rng.Intn(2)]
+			if rng.Bool() {
+				a.sop2(12, half, half, sgpr(14)) // s_and_b32 exec_half, exec_half, s14
+			} else {
+				a.sop1(0, half, konst(rng.Intn(64))) // s_mov_b32 exec_half, small mask
+				// never switch on lanes that do not exist (partial wavefronts)
+				a.sop2(12, half, half, sgpr(20+half-srcEXECLO)) // s_and_b32 exec_half, exec_half, saved half
+			}
+			k.Features = append(k.Features, "exec-half")
+			skip := len(a.w)
+			a.sopp(8, 0) // s_cbranch_execz SKIP
+			a.vop2(25, 5, konst(1+rng.Intn(40)), 5)
+			a.vop2(21, 9, vsrc(0), 9)
+			scrAddr(a, i%scrSlots)
+			a.flat(28, 22, 5, 0)
+			a.w[skip] |= uint32(uint16((a.pc() - (4*skip + 4)) / 4))
+			a.sop1(1, srcEXECLO, sgpr(20)) // s_mov_b64 exec, s[20:21]
+		default: // halves as plain sources of scalar arithmetic
+			a.vopc(0xC9+rng.Intn(6), konst(rng.Intn(64)), 1)
+			a.sop2(16, 15, srcVCCHI, srcEXECLO) // s_xor_b32 s15, vcc_hi, exec_lo
+			a.sop2(0, 15, sgpr(15), srcEXECHI)
+			a.vop2(21, 5, sgpr(15), 5)
+		}
+	}
+	a.waitcnt(wAll)
+}
+
 // genMicro builds kernel idx.  profile "lds" makes every kernel an LDS kernel
 // with many work-groups (for platforms with very few compute units).
 func genMicro(rng *vh.Rng, idx int, profile string) MicroKernel {
-	k := MicroKernel{Index: idx, Features: []string{}}
+	k := MicroKernel{Index: idx, Features: []string{}, SGPRs: 32, VGPRs: 28}
 	k.WGSize = []int{64, 64, 128, 256, 96, 192}[rng.Intn(6)]
 	k.NumWG = []int{1, 2, 3, 5, 8}[rng.Intn(5)]
-	family := []string{"general", "general", "chain", "chain", "lds", "getpc"}[rng.Intn(6)]
+	family := []string{"general", "general", "chain", "chain", "lds", "getpc", "uneven", "halfreg"}[rng.Intn(8)]
+	// register counts at and around the allocation granules (16 SGPRs, 4 VGPRs)
+	k.SGPRs = []int{32, 32, 48, 27, 28, 29, 30, 31, 33, 40}[rng.Intn(10)]
+	k.VGPRs = []int{28, 28, 29, 30, 31, 32, 33, 36, 64}[rng.Intn(9)]
 	if profile == "lds" {
 		family = "lds"
 		if rng.Intn(4) == 0 {
@@ -515,9 +634,18 @@ func genMicro(rng *vh.Rng, idx int, profile string) MicroKernel {
 	}
 	k.Features = append(k.Features, "family:"+family)
 	a := &asm{}
+	if family == "uneven" {
+		genUneven(rng, a, &k)
+		k.CodeWords = len(a.w)
+		k.Words = a.w
+		sort.Strings(k.Features)
+		return k
+	}
 	prologue(a, &k)
 	patch, pcAfter := -1, 0
 	switch family {
+	case "halfreg":
+		genHalfReg(rng, a, &k)
 	case "general":
 		genGeneral(rng, a, &k)
 	case "chain":
@@ -569,8 +697,8 @@ func (k *MicroKernel) codeObject() *insts.KernelCodeObject {
 		KernargSegmentByteSize:      40,
 		GroupSegmentByteSize:        uint32(k.LDS),
 		EnableSgprKernargSegmentPtr: true,
-		WFSgprCount:                 32,
-		WIVgprCount:                 28,
+		WFSgprCount:                 uint16(k.SGPRs),
+		WIVgprCount:                 uint16(k.VGPRs),
 	}
 	return &insts.KernelCodeObject{KernelCodeObjectMeta: meta, Data: data, Version: insts.CodeObjectV3,
 		Symbol: &elf.Symbol{Name: fmt.Sprintf("micro%d", k.Index), Size: uint64(len(data))}}
